@@ -153,7 +153,67 @@ structure Tally where
   tokens : Nat := 0
   deriving Inhabited
 
+/-- token list of a two-mode set: `mx<extras>f…;prec,isString,mask,AST;…` -/
+def parseModeSet (id spec : String) : SetInfo :=
+  match spec.splitOn ";" with
+  | h :: rest =>
+    let extras := (((h.drop 2).toString.splitOn "f").headD "0").toNat?.getD 0
+    let toks := rest.map (fun t => match t.splitOn "," with
+      | p :: s :: _mask :: ast =>
+        let cs := (",".intercalate ast).toList.toArray
+        ({ re := (parseRe cs 0).1, prec := p.toInt?.getD 0, isString := s == "1" } : Token)
+      | _ => default)
+    { id := id, toks := toks, texts := [], word := none, extras := extras }
+  | _ => {}
+
+structure MTally where
+  strings : Nat := 0
+  errors : Nat := 0
+  leaves : Nat := 0
+  ctx : Nat := 0            -- leaves where some token matching here is NOT valid in the state (context matters)
+  corrBad : Nat := 0
+  firstCorr : String := ""
+  overtake : Nat := 0
+  other : Nat := 0
+  firstOvertake : String := ""
+  firstOther : String := ""
+  deriving Inhabited
+
+/-- judge every lexing step of one real parse: `(tok, pos, end, state)` = in parse state `state` the
+lexer started at `pos` and returned `tok` ending at `end` (`tok` = 100000 for the end-of-input
+token, 100001 for an error / unknown symbol).  Expected: what the lexer model chooses at `pos` among
+the tokens valid in `state`; when the model finds no token the real lexer must not return a token
+that is valid in `state`. -/
+def evalEvents (si : SetInfo) (valid : Array (List Nat)) (cps : String) (input : List Nat)
+    (events : List (Nat × Nat × Nat × Nat)) (a : MTally) : MTally := Id.run do
+  let isExtra := isExtraOf si.extras
+  let mut a := a
+  for (tok, pos, en, state) in events do
+    let rest := input.drop pos
+    let inp := skipExtras isExtra rest
+    let off := rest.length - inp.length
+    let vs := valid.getD state []
+    let v : Nat → Bool := fun i => vs.contains i
+    let scan := lexScan si.toks v inp
+    let ref := refToken si.toks v inp
+    let real : Option Cand := if tok < 100000 && pos + off ≤ en then some (tok, en - pos - off) else none
+    let agrees (m : Option Cand) : Bool :=
+      match m with
+      | some c => real == some c
+      | none => if tok == 100000 then inp.isEmpty else !(tok < 100000 && vs.contains tok)
+    a := { a with leaves := a.leaves + 1 }
+    if ((candidates si.toks (fun _ => true) inp).any (fun c => !vs.contains c.1)) then a := { a with ctx := a.ctx + 1 }
+    if !agrees scan then a := { a with corrBad := a.corrBad + 1, firstCorr := if a.firstCorr == "" then cps else a.firstCorr }
+    if !agrees ref then
+      if classify si real ref == "overtake" then
+        a := { a with overtake := a.overtake + 1, firstOvertake := if a.firstOvertake == "" then cps else a.firstOvertake }
+      else a := { a with other := a.other + 1, firstOther := if a.firstOther == "" then cps else a.firstOther }
+  return a
+
 structure St where
+  msi : SetInfo := {}
+  mvalid : Array (List Nat) := #[]
+  mt : MTally := {}
   si : SetInfo := {}
   /-- one tally per assignment of the unclassifiable tokens to the keyword lexer -/
   variants : Array (List Nat × Tally) := #[]
@@ -183,6 +243,24 @@ def evalString (si : SetInfo) (cps : String) (input : List Nat) (r : Option (Lis
 def step (s : St) (line : String) : IO St := do
   match line.splitOn " " with
   | ["set", id, spec] => return { si := parseSet id spec, variants := #[] }
+  | ["mset", id, spec] => return { s with msi := parseModeSet id spec, mvalid := #[], mt := {} }
+  | ["vs", _, l] => return { s with mvalid := s.mvalid.push (if l == "-" then [] else (l.splitOn ",").map natOf) }
+  | ["m", cps, real] =>
+    let input := if cps == "-" then [] else (cps.splitOn ".").map hexNat
+    let parts := real.splitOn ","
+    let isErr := parts.headD "E" == "E"
+    let events := (parts.drop 1).map (fun w => match w.splitOn ":" with
+      | [t, b, c, d] => ((if t == "end" then 100000 else if t == "other" then 100001 else natOf t), natOf b, natOf c, natOf d)
+      | _ => (100001, 0, 0, 0))
+    let mt := { s.mt with strings := s.mt.strings + 1, errors := s.mt.errors + (if isErr then 1 else 0) }
+    return { s with mt := evalEvents s.msi s.mvalid cps input events mt }
+  | ["endmset", id] =>
+    let a := s.mt
+    let corr := if a.corrBad == 0 then "ok" else s!"DIFF {a.firstCorr}"
+    let judge := if a.other > 0 then s!"FAIL other {a.firstOther}" else if a.overtake > 0 then s!"FAIL overtake {a.firstOvertake}" else "ok"
+    let distinctSets := (s.mvalid.toList.eraseDups).length
+    IO.println s!"S-{id} corr={corr} judge={judge} strings={a.strings} errors={a.errors} nontrivial={a.ctx} corrbad={a.corrBad} docdev={a.overtake + a.other} overtake={a.overtake} other={a.other} tokens={a.leaves} ntok={s.msi.toks.length} word=false mode=true states={s.mvalid.size} validsets={distinctSets}"
+    return s
   | ["kw", l] => return { s with si := { s.si with kws := if l == "-" then [] else (l.splitOn ",").map natOf } }
   | ["ambig", l] =>
     let amb := if l == "-" then [] else (l.splitOn ",").map natOf
